@@ -69,17 +69,28 @@ func (b c20Block) String() string {
 	return fmt.Sprintf("%d name(s) x states {%s} x exactly %d snapshot(s) = %d sequences", b.Names, strings.Join(al, ","), b.Len, b.size())
 }
 
+// c20Stuck is set when a barrier watchdog fired: the remaining cases of the process are
+// skipped and the run is inconclusive.
+var c20Stuck bool
+
 // c20Run executes one case against the real Supervisor and compares with the model after
 // every snapshot.
 func c20Run(r *kit.Run, c c20Case) {
-	c20rec.reset(c.PanicAt)
+	if c20Stuck {
+		return // a watchdog fired earlier in this process: do not burn the outer budget
+	}
+	c20rec.reset(nil)
 	rig, ok := c20NewRig(r.TmpDir())
 	if !ok {
-		r.Inconclusive("watchdog: supervisor did not finish its first event")
+		c20Stuck = true
+		r.Inconclusive("watchdog: supervisor did not finish its first event / the sentinel-only snapshot")
 		return
 	}
+	c20rec.take()
+	c20rec.setScript(c.PanicAt)
 	defer func() {
 		if !rig.close() {
+			c20Stuck = true
 			r.Inconclusive("watchdog: Supervisor.Close did not return")
 		}
 	}()
@@ -88,7 +99,8 @@ func c20Run(r *kit.Run, c c20Case) {
 	everPresent := make([]bool, len(c20Names))
 	for k, snap := range c.Seq {
 		if !rig.apply(snap) {
-			r.Inconclusive(fmt.Sprintf("watchdog: sentinel callback not seen %v after snapshot %d was pushed", c20Watchdog, k))
+			c20Stuck = true
+			r.Inconclusive(fmt.Sprintf("watchdog: sentinel callback not seen %v after snapshot %d of %s was pushed", c20Watchdog, k, c20SeqString(c.Seq)))
 			return
 		}
 		r.Count("barriers", 1)
@@ -295,7 +307,7 @@ func TestVerif_C20_Panics(t *testing.T) {
 		for ni := 0; ni < block.Names; ni++ {
 			name := c20Names[ni]
 			for k := 1; k <= exp[name]; k, i = k+1, i+1 {
-				if !r.Thorough() && (uint32(i)*2654435761>>16)%3 != uint32(r.Seed()%3) { // quick: a seeded third of the space
+				if !r.Thorough() && (uint32(i)*2654435761>>16)%4 != uint32(r.Seed()%4) { // quick: a seeded quarter of the space
 					continue
 				}
 				if !r.Mine(i) {
